@@ -891,7 +891,7 @@ def case_mapnl(ctx, case):
         return
     fields = dict(x.split('=', 1) for x in plan.split()[1:])
     epos, ekw = fields['pos'], fields['kw']
-    force, swap, momit = fields['force'] == '1', fields['swap'] == '1', fields['omit'] == '1'
+    force, swap, momit = fields['force'] == '1', fields['swap'], fields['omit'] == '1'
     passed = [k for k in fields['passed'].split(',') if k]
     ptoks = []
     for k in passed:
@@ -928,8 +928,14 @@ def case_mapnl(ctx, case):
     surv = [i for i in range(n) if i not in fails]
     ctx.oracle(isinstance(res, navis.NeuronList) and [int(x.id) - 1000 for x in res] == surv,
                f'map_neuronlist: result not in list order / wrong neurons removed (expected {surv})', case)
-    ctx.corr(res is nl, swap, 'map_neuronlist: inplace ⇒ the input list itself is returned with its neurons swapped', case)
-    if not swap:
+    ctx.corr(res is nl, swap in ('1', 'none'), 'map_neuronlist: which list object is returned (extracted swap test vs runtime)', case)
+    eff_inplace = bool(kwargs['inplace']) if 'inplace' in kwargs else (bool(case['inplace_default']) if case['has_inplace'] else False)
+    ctx.oracle((res is nl) == eff_inplace, f'map_neuronlist: the returned list is{"" if res is nl else " not"} the input list although '
+               f'inplace={eff_inplace}', case)
+    if eff_inplace:
+        ctx.oracle([int(x.id) - 1000 for x in nl] == surv, f'map_neuronlist(inplace=True): the input list holds '
+                   f'{[int(x.id) - 1000 for x in nl]} afterwards, expected the survivors {surv}', case)
+    else:
         ctx.oracle(list(nl.neurons) == before, 'map_neuronlist: input list modified although inplace is false', case)
     # serial twin (property): same per-neuron arguments and same survivors when run without parallel
     if parallel:
@@ -950,6 +956,131 @@ def case_mapnl(ctx, case):
         ctx.oracle(not isinstance(res2, BaseException) and got2 == [(i, strip(rec)) for i, rec in got]
                    and [int(x.id) for x in res2] == [int(x.id) for x in res],
                    'map_neuronlist: parallel=True and the serial run disagree on arguments / survivors / order', case)
+
+
+def branchy_nl(n, rng, id0=1000):
+    """small skeletons with one branch point and twigs of different length"""
+    out = []
+    for i in range(n):
+        a, b, c = rng.randint(2, 4), rng.randint(1, 3), rng.randint(4, 6)
+        rows = [(1, -1, 0.0, 0.0)]
+        nid = 1
+        for k in range(a):                     # trunk
+            nid += 1; rows.append((nid, nid - 1, float(k + 1), 0.0))
+        bp = nid
+        for k in range(b):                     # short twig
+            nid += 1; rows.append((nid, bp if k == 0 else nid - 1, float(a), float(k + 1)))
+        for k in range(c):                     # long twig
+            nid += 1; rows.append((nid, bp if k == 0 else nid - 1, float(a + k + 1), -1.0))
+        df = pd.DataFrame(rows, columns=['node_id', 'parent_id', 'x', 'y'])
+        df['z'] = 0.0; df['radius'] = 0.01
+        out.append(navis.TreeNeuron(df, id=id0 + i, name=f'b{i}'))
+    return navis.NeuronList(out)
+
+
+SWAP_FUNCS = {
+    'probe': None,
+    'prune_by_strahler': dict(to_prune=1),
+    'prune_twigs': dict(size=2.5),
+    'despike_skeleton': dict(),
+    'downsample_neuron': dict(downsampling_factor=2),
+}
+PATTERNS = {'none': lambda n: [], 'first': lambda n: [0], 'middle': lambda n: [n // 2], 'last': lambda n: [n - 1],
+            'first+last': lambda n: sorted({0, n - 1}), 'all': lambda n: list(range(n))}
+
+
+def _swap_run(fname, n, fails, parallel, inplace, omit, seed):
+    """One call. Returns dict(outcome…) describing what is observable afterwards."""
+    r = _random.Random(seed)
+    nl = branchy_nl(n, r)
+    items = list(nl)
+    if fname != 'probe':
+        for i in fails:
+            dp = make_dps(r, 1, npts=(6, 8))[0]
+            dp.id = 1000 + i
+            items[i] = dp
+    nl = navis.NeuronList(items)
+    before = list(nl.neurons)
+    kw = {}
+    if inplace is not None:
+        kw['inplace'] = inplace
+    if omit is not None:
+        kw['omit_failures'] = omit
+    if parallel:
+        kw.update(parallel=True, n_cores=2)
+    if fname == 'probe':
+        cfg = ((), (), True, True, False)
+        if cfg not in _PROBES:
+            _PROBES[cfg] = _mk_probe([], [], True, True, False)
+        fn, fkw = _PROBES[cfg], dict(fails=tuple(fails))
+    else:
+        fn, fkw = getattr(navis, fname), dict(SWAP_FUNCS[fname])
+    saved = CU.ProcessingPool
+    CU.ProcessingPool = FakeProcessingPool
+    try:
+        try:
+            res, err = fn(nl, **fkw, **kw), None
+        except BaseException as e:
+            res, err = None, e
+    finally:
+        CU.ProcessingPool = saved
+    obs = lambda L: [(int(x.id) - 1000, type(x).__name__, getattr(x, 'n_nodes', None)) for x in L]
+    return dict(err=type(err).__name__ if err is not None else None, same_object=res is nl,
+                returned=obs(res) if res is not None else None, input_after=obs(nl),
+                input_members_unchanged=list(nl.neurons) == before, fkw=fkw)
+
+
+def case_swapmx(ctx, case):
+    """{serial, parallel} × inplace × omit_failures × failure pattern for one mapped function: which list comes back, what
+    it holds, what the input list holds afterwards, and serial == parallel."""
+    fname, n, inplace, omit, pat = case['fn'], case['n'], case['inplace'], case['omit'], case['pattern']
+    fails = PATTERNS[pat](n)
+    eff_inplace = bool(inplace)          # all functions used here default to inplace=False
+    eff_omit = bool(omit)
+    surv = [i for i in range(n) if i not in fails]
+    # what each survivor should look like: the function applied to that neuron alone
+    want_nodes = {}
+    if fname != 'probe':
+        r = _random.Random(case['seed'])
+        ref = branchy_nl(n, r)
+        for i in surv:
+            want_nodes[i] = getattr(navis, fname)(ref[i], inplace=False, **SWAP_FUNCS[fname]).n_nodes
+    runs = {}
+    for parallel in (False, True):
+        o = _swap_run(fname, n, fails, parallel, inplace, omit, case['seed'])
+        runs[parallel] = o
+        tag = f"{fname}(parallel={parallel}, inplace={inplace}, omit_failures={omit}, failing={fails} of {n})"
+        ctx.count('swapmx', f"{'par' if parallel else 'ser'}/inplace={inplace}/omit={omit}/{pat}")
+        model = ctx.ask(f"c09.mapnl - - 1 1 0 {n} 0 {int(parallel)} {'-' if inplace is None else int(bool(inplace))} "
+                        f"{'-' if omit is None else int(bool(omit))} | ")
+        mswap = dict(x.split('=', 1) for x in model.split()[1:]).get('swap') if model.startswith('OK') else None
+        if fails and not eff_omit:
+            ctx.oracle(o['err'] is not None, f'{tag}: a failing neuron without omit_failures must raise', case)
+            ctx.oracle(o['input_members_unchanged'], f'{tag}: the call raised but the input list was modified', case)
+            continue
+        if o['err'] is not None:
+            ctx.oracle(False, f"{tag}: raises {o['err']}", case)
+            continue
+        ctx.corr(o['same_object'], mswap in ('1', 'none'), f'{tag}: returned object is the input list (extracted swap test vs runtime)', case)
+        ctx.oracle(o['same_object'] == eff_inplace, f"{tag}: the returned list is{'' if o['same_object'] else ' not'} the input list", case)
+        ids = [x[0] for x in o['returned']]
+        ctx.oracle(ids == surv, f'{tag}: returned members {ids}, expected the survivors in list order {surv}', case)
+        if eff_inplace:
+            ctx.oracle([x[0] for x in o['input_after']] == surv,
+                       f"{tag}: the input list holds {[x[0] for x in o['input_after']]} afterwards, expected the survivors {surv} "
+                       '(a failing neuron removes only itself)', case)
+        else:
+            ctx.oracle(o['input_members_unchanged'], f'{tag}: input list members changed although inplace is false', case)
+        if fname != 'probe':
+            got_nodes = {x[0]: x[2] for x in o['returned']}
+            ctx.oracle(got_nodes == want_nodes, f'{tag}: per-neuron results {got_nodes} differ from the function applied to each '
+                       f'neuron alone {want_nodes}', case)
+    a, b = runs[False], runs[True]
+    ctx.oracle((a['err'] is None) == (b['err'] is None) and a['returned'] == b['returned'] and a['same_object'] == b['same_object']
+               and [x[0] for x in a['input_after']] == [x[0] for x in b['input_after']],
+               f"{fname}(inplace={inplace}, omit_failures={omit}, failing={fails}): serial and parallel=True disagree — "
+               f"serial returned {a['returned']} (input after: {[x[0] for x in a['input_after']]}), "
+               f"parallel returned {b['returned']} (input after: {[x[0] for x in b['input_after']]})", case)
 
 
 def case_mapped(ctx, case):
@@ -1197,6 +1328,17 @@ def gen_cases(ctx):
                              fails=sorted(set(i for i in range(n) if r.random() < r.choice([0, 0, 0.4]))),
                              parallel=r.random() < 0.4, omit=r.choice([None, None, True, False]),
                              inplace_kw=r.choice([None, None, True, False]), cs=r.choice([0, 0, 1, 2, 5]), seed=r.randrange(10 ** 9)))
+    # the full combination matrix of the in-place swap, exhaustive in both tiers
+    for fname in SWAP_FUNCS:
+        for inplace in (True, False, None):
+            for omit in (True, False, None):
+                for pat in PATTERNS:
+                    if fname == 'downsample_neuron' and pat != 'none':
+                        continue      # accepts Dotprops: no failing member available
+                    if ctx.quick() and fname not in ('probe', 'prune_by_strahler') and (inplace is None or omit is None):
+                        continue
+                    yield ('swapmx', dict(fn=fname, n=r.choice([3, 4, 5]) if pat != 'all' else r.choice([1, 3]), inplace=inplace,
+                                          omit=omit, pattern=pat, seed=r.randrange(10 ** 9)))
     for _ in range(ctx.budget(10, 100)):
         yield ('mapped', dict(n=r.randint(2, 5), depth=r.choice([1, 2, 3]), seed=r.randrange(10 ** 9)))
     for _ in range(ctx.budget(12, 120)):
@@ -1215,7 +1357,7 @@ def gen_cases(ctx):
 
 
 RUNNERS = {'nblast': case_nblast, 'natural': case_natural, 'partfn': case_partition_fn, 'apply': case_apply,
-           'zipw': case_zipw, 'mapnl': case_mapnl, 'mapdf': case_mapdf, 'mapped': case_mapped, 'synblast': case_synblast, 'nlinit': case_nlinit}
+           'zipw': case_zipw, 'mapnl': case_mapnl, 'mapdf': case_mapdf, 'mapped': case_mapped, 'swapmx': case_swapmx, 'synblast': case_synblast, 'nlinit': case_nlinit}
 
 
 def run(ctx):
@@ -1247,7 +1389,7 @@ def replay(ctx, rp):
     if kind is None:   # replay files written before the case carried its stream name
         kind = next((k for k, keys in (('mapdf', {'fails', 'omit', 'parallel', 'n'}), ('nblast', {'fn', 'rows', 'cols'}),
                                        ('natural', {'fn', 'npb', 'progress'}), ('zipw', {'pos', 'kw', 'rets'}),
-                                       ('mapnl', {'can_zip', 'must_zip'}), ('apply', {'kinds', 'pfail'}),
+                                       ('mapnl', {'can_zip', 'must_zip'}), ('swapmx', {'fn', 'pattern', 'inplace'}), ('apply', {'kinds', 'pfail'}),
                                        ('synblast', {'by_type', 'rows'}), ('mapped', {'depth'}), ('nlinit', {'n', 'n_cores'}),
                                        ('partfn', {'N', 'nq', 'nt'})) if keys <= set(case)), None)
     if kind in RUNNERS:
